@@ -105,6 +105,10 @@ fn main() {
         notes: BTreeMap::new(),
         out: std::io::BufWriter::new(std::io::stdout()),
     };
+    if suite == "repro-child" {
+        suites::repro::child(replay.as_deref().unwrap_or(""));
+        return;
+    }
     if let Some(body) = replay {
         let body = body.strip_prefix(&format!("{suite} ")).unwrap_or(&body).to_string();
         let c = match suite.as_str() {
@@ -133,6 +137,7 @@ fn main() {
             "ext" => suites::ext::run(&mut ctx),
             "ana" => suites::ana::run(&mut ctx),
             "mat" => suites::mat::run(&mut ctx),
+            "repro" => suites::repro::run(&mut ctx),
             "plant" => suites::mat::run_plant(&mut ctx),
             "ord" => suites::meta::run_order(&mut ctx),
             "ren" => suites::meta::run_rename(&mut ctx),
